@@ -88,7 +88,7 @@ def audit_memo(e, bdd, n, tabs_of_handle):
         if (pc0, pc1, d) != wp: probs.append(('count_cache[%d] paths/depth = %s, recomputed %s' % (t, (pc0, pc1, d), wp), {'op': 'counts', 'a': t}))
         if 'adhoccountmodels' in feats or 'adhoccounting' not in feats:
             tt = tab(t); sat = z3.Sum([z3.If(zb(b), 1, 0) for b in tt])
-            if sat_model(e, z3.Or(mo * (1 << n) != sat * (cm + mo), z3.BoolVal(cm + mo != (1 << wp[2])))) is not None:
+            if sat_model(e, z3.Or(mo * (1 << n) != sat * (cm + mo), z3.BoolVal(cm + mo == 0))) is not None:
                 probs.append(('count_cache[%d] model counts (%s,%s) wrong' % (t, cm, mo), {'op': 'counts', 'a': t}))
     return probs
 
